@@ -2,9 +2,46 @@ SPEC = dict(
     props_file="C03",
     legs=[dict(family="hll", focus="union", oracles=["union_ok"], profiles=["debug", "release"],
                mask=[10, 11, 12, 13, 14, 15, 16, 17, 18, 20], n_quick=120, n_thorough=1500)],
-    level_text="placeholder",
-    level_note="placeholder",
-    technique="Coq proof + differential correspondence model vs crate",
-    trusted=[],
-    assumptions=[],
+    level_text="Theorems (Props/C03.v) over an executable Gallina model of hll/union.rs and of the Array8 bulk functions it "
+               "uses (Model/HllUnion.v, one definition per Rust function: update dispatch, clone fast path, coupon replay, "
+               "copy_or_downsample, merge_array_same_lgk / with_downsample, gadget shrink, promote-and-merge, "
+               "rebuild_cached_values, to_sketch with convert_array8_to_type, update_value, reset), on top of the C02 model. "
+               "Inputs are arbitrary well-formed source sketches (SrcOK): any lg_k, any target type, list / set / array, "
+               "ANY estimator state (in order or out of order) -- in-process, deserialized, foreign and union-produced "
+               "sketches alike. Proved for all lg_max in 4..21 and all operation sequences (update, update_value, reset "
+               "interleaved): c03_union_refines -- no panic site is reached and the gadget shows exactly the Spec: "
+               "coupon-set union at lg_max while sparse (mode = function of the number of distinct coupons), otherwise "
+               "register j = max over all merged coupons folded to slot j mod 2^lg with lg = min(lg_max, lg_k of the "
+               "non-empty array-mode inputs); c03_union_order_independent -- any order, any repetition, any concrete "
+               "representation of the same set of abstract inputs gives the same lg_k / mode / coupons / registers "
+               "(commutative, idempotent); c03_to_sketch_type_independent -- to_sketch(Hll4/6/8) agree on registers, "
+               "out-of-order flag and all estimator inputs (so estimate and bounds are bit-identical) and the result is "
+               "again a well-formed source representing the Spec state (unions compose); c03_union_nonzero_partial -- an "
+               "out-of-order source always leaves an out-of-order gadget with a non-zero register. The two defects D2/D3 "
+               "were confirmed on the crate, repaired by fix: commits, and the repaired code is what is modelled. "
+               "The crate is tied by the correspondence run (source sketches, gadget and to_sketch(t) dumps incl. flag, "
+               "hip/kxq bits, lg_k, is_empty after every step, debug + release) and by the Spec oracle on the crate's own "
+               "observations, which also compares estimate and six bounds across the three types and with the union's "
+               "own, and requires them positive and finite once any coupon was merged.",
+    level_note="PARTIAL in one respect: 'a union of non-empty inputs never reports an estimate of zero' is proved only "
+               "structurally (c03_union_nonzero_partial: flag propagation + non-zero register); that the composite / HIP "
+               "VALUE is > 0 needs float positivity and the ln-based composite estimator, which is not modelled -- it is "
+               "checked on the crate by the oracle for every generated case. Associativity is available as the two pieces "
+               "(to_sketch result is a well-formed source representing the union's Spec state; c03_union_refines holds for "
+               "arbitrary such sources), not as one packaged equation. kxq0/kxq1 after rebuild_cached_values are float sums "
+               "in slot order: mirrored bit-for-bit by the model and tied by correspondence, no rounding analysis. "
+               "Deserialized inputs are represented in the correspondence run by array-mode sketches round-tripped through "
+               "serialize/deserialize with the OUT_OF_ORDER flag forced (what Java/C++ unions emit); list-mode images are "
+               "excluded there because of defect D1 (C11).",
+    technique="Coq proof: gadget invariant by induction over arbitrary operation sequences, reusing the C02 lock-step "
+              "invariant with a parametric array-mode side condition; register files compared through folding lemmas "
+              "(max over s = j mod 2^lg); semilattice laws from the set-determined Spec; + differential correspondence "
+              "model vs crate + Spec oracle on the crate's observations",
+    trusted=["as C02 (kernel, translator, harness/driver, hooks verif_update_with_coupon / verif_state, pyref hashes)",
+             "the composite estimator (ln, cubic interpolation over the composite tables) is not modelled: equality of "
+             "estimates/bounds across types is proved through equality of ALL its inputs and checked on the crate",
+             "Rust fixed-width arithmetic outside the model (unbounded N); register values <= 63 by the invariant"],
+    assumptions=["source sketches are well formed (SrcOK): what HllSketch::new + updates, HllUnion::to_sketch and a "
+                 "faithful deserializer produce; register values in 0..63",
+                 "4 <= lg_max_k <= 21"],
 )
